@@ -253,13 +253,20 @@ def run_sim(case, acc):
     F = refws.enc_frame
     plans = []
     for a in range(case['attempts'] + 2):
-        kind = rnd.choice(('ok-eof', 'rejected', 'ok-close', 'gai', 'ok-perr'))
+        kind = rnd.choice(('ok-eof', 'rejected', 'ok-close', 'gai', 'ok-perr', 'app-close-at-connecting', 'app-close-at-connected',
+                           'app-send-at-connecting'))
         plans.append(kind)
 
-    def factory(i):
-        kind = plans[min(i, len(plans) - 1)]
+    attempt = {'i': 0}
+
+    def factory(_conn_index):
+        # scripted by ATTEMPT (name-resolution failures create no connection)
+        kind = plans[min(attempt['i'], len(plans) - 1)]
+        i = attempt['i']
         if kind == 'rejected':
             return simnet.ScriptServer([('hs', dict(status=404, reason='NF')), ('eof',)])
+        if kind in ('app-close-at-connecting', 'app-close-at-connected'):
+            return simnet.ScriptServer([('hs', {}), ('await_close',), ('echo_close',), ('eof',)])
         if kind == 'ok-close':
             return simnet.ScriptServer([('hs', {}), ('raw', F(1, b'm%d' % i) + F(8, refws.close_payload(1000, ''))), ('await_close',), ('eof',)])
         if kind == 'ok-perr':
@@ -289,10 +296,22 @@ def run_sim(case, acc):
                 kw['session_class'] = simnet.SimSession
                 evs = []
                 inner.append(evs)
+                attempt['i'] = len(inner) - 1
+                kind = plans[min(len(inner) - 1, len(plans) - 1)]
 
                 def gen_():
                     for ev in real_connect(*a, **kw):
                         evs.append(ev)
+                        # the application reacting to early events must not be able to end persist()
+                        try:
+                            if kind == 'app-close-at-connecting' and ev.name == 'connecting':
+                                ws.close()
+                            elif kind == 'app-close-at-connected' and ev.name == 'connected':
+                                ws.close()
+                            elif kind == 'app-send-at-connecting' and ev.name == 'connecting':
+                                ws.send_text('early')
+                        except env.lerrors.WebSocketError:
+                            pass
                         yield ev
                 return gen_()
             ws.connect = recording_connect
